@@ -15,12 +15,15 @@ type vHook struct {
 	idExhausted int
 	sent        [][]byte
 	sentTo      []*Client
+	events      []string // order of connection life-cycle events, for schedule-dependent properties
 }
 
 func (h *vHook) ID() string { return "verif" }
 func (h *vHook) Provides(b byte) bool {
-	return b == OnACLCheck || b == OnConnectAuthenticate || b == OnPublishDropped || b == OnQosDropped || b == OnPacketIDExhausted || b == OnPacketSent
+	return b == OnACLCheck || b == OnConnectAuthenticate || b == OnPublishDropped || b == OnQosDropped || b == OnPacketIDExhausted || b == OnPacketSent || b == OnDisconnect || b == OnSessionEstablished
 }
+func (h *vHook) OnDisconnect(cl *Client, err error, expire bool)    { h.events = append(h.events, "disc:"+cl.ID) }
+func (h *vHook) OnSessionEstablished(cl *Client, pk packets.Packet) { h.events = append(h.events, "est:"+cl.ID) }
 func (h *vHook) OnConnectAuthenticate(cl *Client, pk packets.Packet) bool { return true }
 func (h *vHook) OnACLCheck(cl *Client, topic string, write bool) bool {
 	if h.aclDeny != nil && h.aclDeny(cl, topic, write) {
@@ -34,6 +37,9 @@ func (h *vHook) OnPacketIDExhausted(cl *Client, pk packets.Packet) { h.idExhaust
 func (h *vHook) OnPacketSent(cl *Client, pk packets.Packet, b []byte) {
 	h.sent = append(h.sent, append([]byte{}, b...))
 	h.sentTo = append(h.sentTo, cl)
+	if pk.FixedHeader.Type == packets.Connack {
+		h.events = append(h.events, "connack:"+cl.ID)
+	}
 }
 
 func vNewServer(opts *Options) (*Server, *vHook) {
